@@ -49,7 +49,7 @@ THEOREMS = {
            _t("C04U", "FlooVerif.C04U.array_is_grid"),
     "C07": _t("C07", "FlooVerif.C07U.id_eq_uid", "FlooVerif.C07U.idOf_eq", "FlooVerif.C07U.uids_dense", "FlooVerif.C07U.id_fits") +
            _t("C07XY", "FlooVerif.C07U.xy_ids_fit", "FlooVerif.C07U.coord_fits", "FlooVerif.C07U.listMin_le", "FlooVerif.C07U.listMax_ge"),
-    "C08": _t("HwTiePorts", "FlooVerif.HwTie.setPorts_pinned") + _t("C08Slot", "FlooVerif.C08S.ni_slot", "FlooVerif.C08S.slot_2d", "FlooVerif.C08S.slot_1d", "FlooVerif.C08S.slot_single", "FlooVerif.C08S.reindex_windows", "FlooVerif.C08S.compileNi_spec") + _t("C08", "FlooVerif.C08U.portElem_depth", "FlooVerif.C08U.kept_length", "FlooVerif.C08U.portElem_single"),
+    "C08": _t("HwTiePorts", "FlooVerif.HwTie.setPorts_pinned") + _t("HwTieChimney", "FlooVerif.HwTie.axiChimney_pinned", "FlooVerif.HwTie.nwChimney_pinned") + _t("C08Slot", "FlooVerif.C08S.ni_slot", "FlooVerif.C08S.slot_2d", "FlooVerif.C08S.slot_1d", "FlooVerif.C08S.slot_single", "FlooVerif.C08S.reindex_windows", "FlooVerif.C08S.compileNi_spec") + _t("C08", "FlooVerif.C08U.portElem_depth", "FlooVerif.C08U.kept_length", "FlooVerif.C08U.portElem_single"),
     "C10": _t("C10", "FlooVerif.C10.no_output_on_error", "FlooVerif.C10.rejected_of_gen_error", "FlooVerif.C10.validate_ok",
               "FlooVerif.C10.reject_invalid_range", "FlooVerif.C10.reject_empty_range", "FlooVerif.C10.reject_contradictory_range",
               "FlooVerif.C10.reject_sbr_without_range", "FlooVerif.C10.reject_tableless_id_without_offset",
